@@ -70,7 +70,11 @@ def gen_configurator(rng, quick=True, int_leaf=False, nested=True, top_items=Fal
         elif kind == "AtMost":
             a.update(c="AtMost", v=rng.randint(1, 2), args=group(rng.randint(2, 3)))
         elif kind in ("All", "Any", "Xor", "ExactlyOne", "XNor"):
-            a.update(c=kind, args=group(rng.randint(1, 3)))
+            args = group(rng.randint(1, 3))
+            if nested and depth > 0 and rng.random() < 0.2:
+                # a (defaulted) choice or another rule as one of the members of a plain connective, XNor included
+                args.append(rule(depth - 1, ("ccAnyD", "ccXorD", "ccAnyD", "ccXorD", "AtMost", "Any")))
+            a.update(c=kind, args=args)
         elif kind == "AtLeast":
             a.update(c="AtLeast", v=rng.randint(1, 2), args=group(rng.randint(2, 3)))
         else:
@@ -90,6 +94,15 @@ def gen_configurator(rng, quick=True, int_leaf=False, nested=True, top_items=Fal
         dflt_item = leaf()
         rules.append({"c": rng.choice(["ccAny", "ccXor"]), "args": [dflt_item, shared], "default": [dflt_item["id"]], **({"id": rid()} if rng.random() < 0.7 else {})})
         rules.append({"c": "Any", "args": [shared, {"c": "All", "args": group(2)}], **({"id": rid()} if rng.random() < 0.7 else {})})
+    if nested and rng.random() < 0.08:
+        # a defaulted choice whose non-default alternatives are exactly a group that another rule mentions as a plain "any of"
+        # of its own (a separate, equal object): the generated non-default branch coincides with that sub-rule
+        g3 = group(3)
+        if len(g3) == 3:
+            rules.append({"c": rng.choice(["ccAny", "ccXor"]), "args": g3, "default": [g3[2]["id"]], **({"id": rid()} if rng.random() < 0.7 else {})})
+            other = {"c": "Any", "args": [dict(g3[0]), dict(g3[1])]}
+            rules.append({"c": "Imply", "cond": {"c": "All", "args": group(1)}, "cons": other, **({"id": rid()} if rng.random() < 0.7 else {})}
+                         if rng.random() < 0.6 else {"c": "Any", "args": [other, {"c": "All", "args": group(2)}], **({"id": rid()} if rng.random() < 0.7 else {})})
     if int_leaf:
         lo = rng.randint(0, 2)
         rules.append({"c": "AtLeast", "v": rng.randint(1, 3), "args": [{"c": "var", "id": "t", "lo": lo, "hi": lo + rng.randint(2, 4)},
@@ -117,12 +130,14 @@ def valid_configurator(rng, quick=True, dup_top_p=0.0, **kw):
         except Exception:
             continue
         t = snap(o)
-        prios = {}
+        prios, classes = {}, {}
         for n in subs(t):
             if n["k"] == "node":
                 prios.setdefault(n["id"], set()).add(n.get("prio"))
-        if any(len(v) > 1 for v in prios.values()):
-            continue        # a generated id shared by a prio-tagged and an untagged node: which tag flatten() keeps is arbitrary
+                classes.setdefault(n["id"], set()).add(n.get("cls"))
+        if any(len(v) > 1 and len(classes[i]) > 1 for i, v in prios.items()):
+            continue        # a generated id shared by a tagged and an untagged node of DIFFERENT classes: both stay in flatten()
+                            # and which tag the dictionary keeps follows the set order (equal objects: the first met, modelled)
         if well_formed(t) and not o.errors() and (free01(t) or (kw.get("fix_root_p") and a.get("$fix") is not None)):
             if dup_top_p and rng.random() < dup_top_p:
                 # the same item / the same rule object listed twice directly under an otherwise valid configurator (errors()
@@ -177,5 +192,6 @@ def default_prios_of(t):
     """expected default prio dictionary from a snapshot: prio tag where present else -1 (sorted by id)"""
     out = {}
     for n in subs(t):
-        out[n["id"]] = n["prio"] if n["k"] == "node" and n.get("prio") is not None else -1
+        # of several equal sub-propositions flatten() keeps the one it meets first (pre-order, children in id order)
+        out.setdefault(n["id"], n["prio"] if n["k"] == "node" and n.get("prio") is not None else -1)
     return out
